@@ -70,16 +70,16 @@ def run_verus_property(prop, tier, units, runner=None, assumptions=(), samples=(
                            verus_output=f['verus_output'], generated_file=res['generated'], verus_stats=res['stats'])
             if payload_input:
                 payload['failing_input'] = payload_input
-            rep.violation(key, f['obligation'], payload, found_input)
-            nviol += 1
+            if rep.violation(key, f['obligation'], payload, found_input):
+                nviol += 1
         cov['discharged'] += res['obligations'] - failed_obl if (res['ok'] or res['failures']) else 0
     if found_input and not any_failures:
-        rep.violation('runner:' + re.sub(r'[^a-z_ ]', '', str(search.get('what', '')).lower())[:60],
-                      'executable form of the %s contract on the real crate' % prop, dict(failing_input=payload_input), True)
-        nviol += 1
+        if rep.violation('runner:' + re.sub(r'[^a-z_ ]', '', str(search.get('what', '')).lower())[:60],
+                      'executable form of the %s contract on the real crate' % prop, dict(failing_input=payload_input), True):
+            nviol += 1
     for (key, obligation, payload, fi) in pre_violations:
-        rep.violation(key, obligation, payload, fi)
-        nviol += 1
+        if rep.violation(key, obligation, payload, fi):
+            nviol += 1
     cov['replay_runner'] = search
     cov['not_decided'] = list(not_decided)
     cov['undecided'] = rep.undecided
